@@ -114,8 +114,17 @@ Lemma axis_step_inv : forall tol g u s j k, axis_step tol g u s = Ok (j, k) ->
   k = (if Qltb (dot u (sel (g_unit g) j)) 0 then - rne (s / sel (g_spac g) j) else rne (s / sel (g_spac g) j)).
 Proof.
   intros tol g u s j k. unfold axis_step. destruct (find_axis tol g u) as [j'|] eqn:F; [|discriminate].
+  destruct (rne (s / sel (g_spac g) j') =? 0); cbn [orb]; [discriminate|].
   destruct (Qltb tol _) eqn:E; [discriminate|]. intros H. inversion H; subst.
   split; [now apply find_axis_some|]. split; [now apply Qltb_false_le|reflexivity].
+Qed.
+
+Lemma axis_step_nonzero : forall tol g u s j k, axis_step tol g u s = Ok (j, k) -> k <> 0.
+Proof.
+  intros tol g u s j k. unfold axis_step. destruct (find_axis tol g u) as [j'|]; [|discriminate].
+  destruct (rne (s / sel (g_spac g) j') =? 0) eqn:E0; cbn [orb]; [discriminate|]. apply Z.eqb_neq in E0.
+  destruct (Qltb tol _); [discriminate|]. intros H. inversion H; subst.
+  destruct (Qltb (dot u (sel (g_unit g) j)) 0); lia.
 Qed.
 
 Lemma vallclose_inv : forall tol u v, vallclose tol u v = true ->
@@ -557,22 +566,112 @@ Proof.
   split; [vm_compute; reflexivity|]. split; vm_compute; reflexivity.
 Qed.
 
-(* "... or refuses" - the refusal is not always the documented RuntimeError: a target whose spacing is below
-   tol x source spacing passes the integer-stride test with stride 0 and dies in the slicing code with
-   ValueError (replayed on the real code: 'slice step cannot be zero') *)
+(* ---- "... or refuses": the exception class ------------------------------------------------------------- *)
+(* (before fix D104 a stride rounding to 0 escaped as ValueError('slice step cannot be zero'); the witness
+   zs_src / zs_tgt below is now refused with RuntimeError) *)
+Theorem match_refusal_class : forall tol g h e, gpos (g_shape g) -> gpos (g_shape h) ->
+  match_geometry tol g h = Err e ->
+  e = RT \/ (e = VE /\ exists sg k, steps_of tol g h = Ok (sg, k) /\ is_perm (p0 sg) (p1 sg) (p2 sg) = false).
+Proof.
+  intros tol g h e Hg Hh. unfold match_geometry.
+  destruct (for_conflict (g_for g) (g_for h)); [intros H; inversion H; now left|].
+  destruct (g_cs g =? g_cs h); cbn [negb]; [|intros H; inversion H; now left].
+  destruct (steps_of tol g h) as [[sg k]|e0] eqn:ES; cbn [bind fst snd].
+  2:{ destruct (steps_of_err _ _ _ _ ES) as [-> _]. intros H; inversion H; now left. }
+  destruct (is_perm (p0 sg) (p1 sg) (p2 sg)) eqn:EP; cbn [negb].
+  2:{ intros H; inversion H. right. split; [reflexivity|]. now exists sg, k. }
+  destruct (plans_of_cases tol g h sg k) as [[_ HP]|[_ HP]]; rewrite HP; cbn [bind];
+    [|intros H; inversion H; now left].
+  destruct (results_total g sg (g_shape h) (starts g h sg) k Hg Hh) as [[_ R]|[[d Hd] _]].
+  - rewrite R. cbn [bind]. discriminate.
+  - exfalso. apply (axis_step_nonzero _ _ _ _ _ _ (steps_of_inv _ _ _ _ _ ES d)). exact Hd.
+Qed.
+
+(* two vectors component-wise close to w and w' have almost the dot product of w and w' *)
+Lemma close_pair_dot : forall tol u u' w w', (0 <= tol)%Q ->
+  vallclose tol u w = true -> vallclose tol u' w' = true -> (dot w w == 1)%Q -> (dot w' w' == 1)%Q ->
+  (- (3 * (2 * tol + tol * tol)) <= dot u u' - dot w w')%Q /\ (dot u u' - dot w w' <= 3 * (2 * tol + tol * tol))%Q.
+Proof.
+  intros tol [u0 u1 u2] [x0 x1 x2] [w0 w1 w2] [y0 y1 y2] Ht H H' Hw Hw'.
+  destruct (unit_comp_bound _ Hw) as ((A0 & B0) & (A1 & B1) & (A2 & B2)).
+  destruct (unit_comp_bound _ Hw') as ((A3 & B3) & (A4 & B4) & (A5 & B5)).
+  destruct (vallclose_inv _ _ _ H) as ((C0 & D0) & (C1 & D1) & (C2 & D2)).
+  destruct (vallclose_inv _ _ _ H') as ((C3 & D3) & (C4 & D4) & (C5 & D5)).
+  unfold dot in *; cbn [vx vy vz] in *.
+  assert (E : (u0 * x0 + u1 * x1 + u2 * x2 - (w0 * y0 + w1 * y1 + w2 * y2) ==
+               ((u0 - w0) * y0 + w0 * (x0 - y0) + (u0 - w0) * (x0 - y0)) +
+               ((u1 - w1) * y1 + w1 * (x1 - y1) + (u1 - w1) * (x1 - y1)) +
+               ((u2 - w2) * y2 + w2 * (x2 - y2) + (u2 - w2) * (x2 - y2)))%Q) by ring.
+  rewrite E.
+  pose proof (mul_bound (u0 - w0) y0 tol 1 C0 D0 A3 B3) as [M0 N0].
+  pose proof (mul_bound w0 (x0 - y0) 1 tol A0 B0 C3 D3) as [M1 N1].
+  pose proof (mul_bound (u0 - w0) (x0 - y0) tol tol C0 D0 C3 D3) as [M2 N2].
+  pose proof (mul_bound (u1 - w1) y1 tol 1 C1 D1 A4 B4) as [M3 N3].
+  pose proof (mul_bound w1 (x1 - y1) 1 tol A1 B1 C4 D4) as [M4 N4].
+  pose proof (mul_bound (u1 - w1) (x1 - y1) tol tol C1 D1 C4 D4) as [M5 N5].
+  pose proof (mul_bound (u2 - w2) y2 tol 1 C2 D2 A5 B5) as [M6 N6].
+  pose proof (mul_bound w2 (x2 - y2) 1 tol A2 B2 C5 D5) as [M7 N7].
+  pose proof (mul_bound (u2 - w2) (x2 - y2) tol tol C2 D2 C5 D5) as [M8 N8].
+  split; lra.
+Qed.
+
+(* orthogonal target axes cannot both align with the same source axis *)
+Lemma aligned_same_axis_absurd : forall tol u u' v, (0 <= tol)%Q -> (7 * tol < 1)%Q ->
+  (dot v v == 1)%Q -> (dot u u' == 0)%Q -> aligned tol u v = true -> aligned tol u' v = true -> False.
+Proof.
+  intros tol u u' v Ht0 Ht1 Hv Hu H H'.
+  assert (Hn : (dot (vneg v) (vneg v) == 1)%Q) by (rewrite dot_vneg_vneg; exact Hv).
+  assert (T2 : (tol * tol <= tol * (1 # 7))%Q).
+  { assert (K : (0 <= tol * ((1 # 7) - tol))%Q) by (apply Qmult_le_0_compat; lra).
+    assert (E : (tol * ((1 # 7) - tol) == tol * (1 # 7) - tol * tol)%Q) by ring. rewrite E in K. lra. }
+  assert (Dnn : (dot (vneg v) (vneg v) == 1)%Q) by exact Hn.
+  assert (Dvn : (dot v (vneg v) == -1)%Q) by (rewrite dot_vneg_r, Hv; reflexivity).
+  assert (Dnv : (dot (vneg v) v == -1)%Q) by (rewrite dot_sym, dot_vneg_r, Hv; reflexivity).
+  unfold aligned in H, H'. apply orb_true_iff in H. apply orb_true_iff in H'.
+  destruct H as [H|H], H' as [H'|H'].
+  - destruct (close_pair_dot tol u u' v v Ht0 H H' Hv Hv) as [L R]. rewrite Hu, Hv in L, R. lra.
+  - destruct (close_pair_dot tol u u' v (vneg v) Ht0 H H' Hv Hn) as [L R]. rewrite Hu, Dvn in L, R. lra.
+  - destruct (close_pair_dot tol u u' (vneg v) v Ht0 H H' Hn Hv) as [L R]. rewrite Hu, Dnv in L, R. lra.
+  - destruct (close_pair_dot tol u u' (vneg v) (vneg v) Ht0 H H' Hn Hn) as [L R]. rewrite Hu, Dnn in L, R. lra.
+Qed.
+
+Lemma steps_perm : forall tol g h sg k, (0 <= tol)%Q -> (7 * tol < 1)%Q -> orthonormal g -> orthonormal h ->
+  steps_of tol g h = Ok (sg, k) -> is_perm (p0 sg) (p1 sg) (p2 sg) = true.
+Proof.
+  intros tol g h sg k Ht0 Ht1 Ho Hoh ES.
+  assert (D : forall d d', ax_eqb d d' = false -> sel sg d <> sel sg d').
+  { intros d d' Hdd E.
+    destruct (axis_step_inv _ _ _ _ _ _ (steps_of_inv _ _ _ _ _ ES d)) as (A & _).
+    destruct (axis_step_inv _ _ _ _ _ _ (steps_of_inv _ _ _ _ _ ES d')) as (A' & _).
+    rewrite <- E in A'.
+    apply (aligned_same_axis_absurd tol (sel (g_unit h) d) (sel (g_unit h) d') (sel (g_unit g) (sel sg d))); try assumption.
+    - rewrite (Ho _ _), ax_eqb_refl. reflexivity.
+    - rewrite (Hoh d d'), Hdd. reflexivity. }
+  pose proof (D X0 X1 eq_refl) as D01. pose proof (D X0 X2 eq_refl) as D02. pose proof (D X1 X2 eq_refl) as D12.
+  cbn [sel] in *. destruct (p0 sg), (p1 sg), (p2 sg); try reflexivity; congruence.
+Qed.
+
+(* FULL: between orthonormal geometries (the only ones the Volume constructor accepts) every refusal of
+   match_geometry is the documented RuntimeError *)
+Theorem match_refusal_is_runtime_error : forall tol g h e, (0 <= tol)%Q -> (7 * tol < 1)%Q ->
+  orthonormal g -> orthonormal h -> gpos (g_shape g) -> gpos (g_shape h) ->
+  match_geometry tol g h = Err e -> e = RT.
+Proof.
+  intros tol g h e Ht0 Ht1 Ho Hoh Hg Hh H.
+  destruct (match_refusal_class tol g h e Hg Hh H) as [E|(_ & sg & k & ES & EP)]; [exact E|].
+  rewrite (steps_perm tol g h sg k Ht0 Ht1 Ho Hoh ES) in EP. discriminate.
+Qed.
+
 Definition zs_src : geom :=
   Geom (T3 2 3 4) 0 None (T3 (V3 1 0 0) (V3 0 1 0) (V3 0 0 1)) (T3 1000000 1 1)%Q (V3 0 0 0).
 Definition zs_tgt : geom :=
   Geom (T3 2 3 4) 0 None (T3 (V3 1 0 0) (V3 0 1 0) (V3 0 0 1)) (T3 1 1 1)%Q (V3 0 0 0).
-Theorem refusal_class_refuted :
-  exists g h, orthonormal g /\ orthonormal h /\ spac_pos g /\ spac_pos h /\ gpos (g_shape g) /\ gpos (g_shape h) /\
-    match_geometry (1 # 100000) g h = Err VE.
+Example zero_stride_now_refused :
+  orthonormal zs_src /\ orthonormal zs_tgt /\ gpos (g_shape zs_src) /\ gpos (g_shape zs_tgt) /\
+  match_geometry (1 # 100000) zs_src zs_tgt = Err RT.
 Proof.
-  exists zs_src, zs_tgt.
   split; [intros i j; destruct i, j; vm_compute; reflexivity|].
   split; [intros i j; destruct i, j; vm_compute; reflexivity|].
-  split; [intros d; destruct d; vm_compute; reflexivity|].
-  split; [intros d; destruct d; vm_compute; reflexivity|].
   split; [intros d; destruct d; vm_compute; reflexivity|].
   split; [intros d; destruct d; vm_compute; reflexivity|]. vm_compute. reflexivity.
 Qed.
